@@ -37,7 +37,12 @@ def run_case(c):
             return res
         b = grex.RegExpBuilder(c["test_cases"]) if c["id"] % 2 == 0 else grex.RegExpBuilder.from_test_cases(c["test_cases"])
         flags = c["flags"]
-        for f in flags:
+        # setter order must not matter: every other pair of cases applies the setters in reverse order,
+        # and escaping is set before or after the other setters
+        order = list(flags) if c["id"] % 4 < 2 else list(reversed(flags))
+        if "e" in flags and c["id"] % 3 == 0:
+            b.with_escaping_of_non_ascii_chars("u" not in flags)  # overwritten below: last call wins
+        for f in order:
             if f in SETTERS:
                 r = SETTERS[f](b)
                 if r is not b:
